@@ -32,7 +32,7 @@ type jaValue struct {
 	devAddr    uint32
 	dlSettings byte
 	rxDelay    byte
-	cfKind     int // 0 absent, 1 channels, 2 masks, 3 channels all unused (16 zero bytes), 4 channels with one slot used, 5 six channel masks (96-channel plan)
+	cfKind     int // 0 absent, 1 channels, 2 masks, 3 channels all unused (16 zero bytes), 4 channels with one slot used, 5 six channel masks (96-channel plan), 6 channels at the ends of the 24-bit code range
 }
 
 // channels are the five frequencies of a channel-frequency CFList of this kind.
@@ -42,6 +42,10 @@ func (j jaValue) channels() [5]uint32 {
 		return [5]uint32{}
 	case 4:
 		return [5]uint32{0, 0, c04CFChannels[2], 0, 0}
+	case 6:
+		// codes 1, 11999999, 12000000, 15000000 and 2^24-1 (100 Hz units): 1.2 GHz is where NewChannelReq
+		// - not the CFList - re-purposes the codes
+		return [5]uint32{100, 1199999900, 1200000000, 1500000000, 1677721500}
 	}
 	return c04CFChannels
 }
@@ -62,7 +66,7 @@ func (j jaValue) wire() []byte {
 	b := []byte{byte(j.joinNonce), byte(j.joinNonce >> 8), byte(j.joinNonce >> 16), j.netID[2], j.netID[1], j.netID[0],
 		byte(j.devAddr), byte(j.devAddr >> 8), byte(j.devAddr >> 16), byte(j.devAddr >> 24), j.dlSettings, j.rxDelay}
 	switch j.cfKind {
-	case 1, 3, 4:
+	case 1, 3, 4, 6:
 		for _, f := range j.channels() {
 			v := f / 100
 			b = append(b, byte(v), byte(v>>8), byte(v>>16))
@@ -88,7 +92,7 @@ func (j jaValue) lib() *lorawan.JoinAcceptPayload {
 		RXDelay:    j.rxDelay,
 	}
 	switch j.cfKind {
-	case 1, 3, 4:
+	case 1, 3, 4, 6:
 		p.CFList = &lorawan.CFList{CFListType: lorawan.CFListChannel, Payload: &lorawan.CFListChannelPayload{Channels: j.channels()}}
 	case 2, 5:
 		var ms []lorawan.ChMask
@@ -386,7 +390,7 @@ func runC04(r *engine.Run) {
 	})
 
 	// ---- join-accept A: header-ish fields complete
-	spA := (&engine.Space{}).Dim("dlsettings", 256).Dim("rxdelay", 16).Dim("cflist{absent,channels,masks,all-unused channels,one channel,six masks}", 6).Dim("joinReqType", 4).Dim("key", 3)
+	spA := (&engine.Space{}).Dim("dlsettings", 256).Dim("rxdelay", 16).Dim("cflist{absent,channels,masks,all-unused channels,one channel,six masks,channels at the ends of the code range}", 7).Dim("joinReqType", 4).Dim("key", 3)
 	r.PartDims("joinaccept/A-dlsettings-rxdelay-cflist", spA.Desc(), spA.N(), func(c *engine.Case) {
 		var ch [5]int
 		spA.Decode(c.Index, ch[:])
